@@ -38,7 +38,7 @@ inline std::vector<Option> parseOptions(const std::vector<std::string>& lines) {
     return out;
 }
 
-enum Pace { P_NOW = 0, P_NEXT_INFO, P_DEPTH, P_BESTMOVE, P_SLEEP };
+enum Pace { P_NOW = 0, P_NEXT_INFO, P_DEPTH, P_BESTMOVE, P_SLEEP, P_DEPTH_LONG /* like P_DEPTH, waits up to 30 s */ };
 
 struct Cmd {
     std::string text;   // the line to send ("" = blank line); "<EOF>" closes stdin
@@ -290,8 +290,8 @@ inline RunResult execute(const Session& s, const RunCfg& rc) {
         switch (c.pace) {
         case P_NOW: break;
         case P_NEXT_INFO: if (searching) { size_t before = e.log.size(); long long end = uci::nowMs() + 300; while (uci::nowMs() < end && e.log.size() == before) e.pump(10); } break;
-        case P_DEPTH: if (searching) {
-            int want = c.paceArg; long long end = uci::nowMs() + 1000;
+        case P_DEPTH: case P_DEPTH_LONG: if (searching) {
+            int want = c.paceArg; long long end = uci::nowMs() + (c.pace == P_DEPTH_LONG ? 30000 : 1000);
             auto reached = [&]() { for (size_t i = e.log.size(); i-- > 0;) { auto& en = e.log[i]; if (en.dir == '>' && en.line.rfind("go", 0) == 0) break; uci::Info inf; if (en.dir == '<' && uci::parseInfo(en.line, inf) && inf.depth >= want) return true; if (en.dir == '<' && en.line.rfind("bestmove", 0) == 0) return true; } return false; };
             while (uci::nowMs() < end && !reached()) e.pump(10);
         } break;
